@@ -177,7 +177,7 @@ prop("C08",
 prop("C05",
      [r_sec.rule_scan, r_sec.rule_convention, r_sec.rule_end_test, r_sec.rule_case, r_sec.rule_steer,
       r_sec.rule_title_pred, r_sec.rule_route, r_sec.rule_reseek, r_sec.rule_section_type, r_sec.rule_every_section,
-      r_sec.rule_other_verbatim, r_hdrt.rule_no_state, r_hdrt.rule_every_line, r_sec.rule_line_model],
+      r_sec.rule_other_verbatim, r_hdrt.rule_no_state, r_hdrt.rule_every_line, r_sec.rule_line_model, r_data.rule_wrap_count],
      "Section-interval analysis. The title scan tests every line it reads (every readline() is assigned to the scanned "
      "variable, no nested consumption), advances its counter once per line and records a section start under the title "
      "predicate only (SEC.SCAN); all recorded section ends have the same offset from the boundary line (affine "
@@ -205,7 +205,7 @@ prop("C05",
 prop("C06",
      [r_data.rule_null_guard, r_data.rule_null_table, r_data.rule_null_write, r_sec.rule_steer, r_data.rule_counter,
       r_data.rule_null_flat, r_num.rule_numlit, r_wl.rule_ord_table, r_wl.rule_key_norm, r_wl.rule_measure, r_lp.rule_views,
-      r_wrf.rule_determinism, r_data.rule_engine_args_agree, r_data.rule_subs_source],
+      r_wrf.rule_determinism, r_data.rule_engine_args_agree, r_data.rule_subs_source, r_si.rule_accessors],
      "Guard analysis of the NULL->NaN store in LASFile.read: the store `column[mask] = nan` must exist, its mask must be "
      "an exact `column == <value taken from ~Well NULL>` with no call and no tolerance/rounding function in its "
      "provenance (NULL.EXACT), and by control dependence it executes exactly under: the policy flag (third result of "
@@ -248,7 +248,7 @@ prop("C01",
       r_data.rule_counter, r_data.rule_null_flat, r_data.rule_read_subs, r_si.rule_compare, r_num.rule_numlit,
       r_data.rule_data_format, r_data.rule_wrap_consistent, r_wl.rule_ord_table, r_wl.rule_key_norm, r_sec.rule_section_type,
       r_lp.rule_write_no_state, r_data.rule_options_readonly, r_sec.rule_scan, r_lp.rule_views, r_num.rule_numlit_complete,
-      r_sec.rule_line_model, r_wl.rule_loop_closures, r_data.rule_engine_select],
+      r_sec.rule_line_model, r_wl.rule_loop_closures, r_data.rule_engine_select, r_wrf.rule_frame],
      "Write->read pairing clauses: lasio's own wrapped output is re-read with the declared curve count, never the sniffed "
      "per-line count (DATA.WRAP-COUNT, explicit-state search under WRAP == YES); the writer's TextWrapper has "
      "width=data_width, break_long_words=False, break_on_hyphens=False, so lines break only at the blanks between values "
@@ -265,7 +265,7 @@ prop("C09",
      [r_data.rule_tokenizer, r_data.rule_trim, r_sec.rule_title_pred, r_sec.rule_end_test, r_sec.rule_line_normalise,
       r_sec.rule_reseek, r_data.rule_wrap_count, r_sec.rule_convention, r_data.rule_orient, r_sec.rule_content_only_effects,
       r_data.rule_read_subs, r_gr.rule_grammar, r_data.rule_engine_select, r_data.rule_tokens_kept, r_data.rule_split,
-      r_data.rule_subs_source, r_data.rule_subs_agree, r_sec.rule_whitespace_sets, r_data.rule_sample_window, r_data.rule_splitter_guard],
+      r_data.rule_subs_source, r_data.rule_subs_agree, r_sec.rule_whitespace_sets, r_data.rule_sample_window, r_data.rule_splitter_guard, r_data.rule_fast_tokens],
      "Presentation-invariance clauses: the sniffer tokenises with the reader's DLM splitter (DATA.TOKENIZER); every "
      "splitter of the factory yields whitespace-free tokens - decided on the regex AST as a character set, or by strip() "
      "of each field - and comma splitting is positional (DATA.TRIM, DATA.SPLIT; COMMA and TAB trimming are recorded known "
@@ -285,7 +285,7 @@ prop("C02",
      [r_sec.rule_convention, r_sec.rule_end_test, r_sec.rule_line_normalise, r_data.rule_orient, r_data.rule_reshape,
       r_sec.rule_reseek, r_sec.rule_scan, r_data.rule_null_flat, r_data.rule_split, r_sec.rule_content_only_effects,
       r_data.rule_read_subs, r_data.rule_wrap_count, r_data.rule_space_tokens, r_data.rule_fast_tokens, r_data.rule_null_table,
-      r_data.rule_null_guard, r_data.rule_tokens_kept, r_sec.rule_line_model, r_data.rule_engine_args_agree, r_sec.rule_steer, r_data.rule_splitter_guard, r_data.rule_single_pass],
+      r_data.rule_null_guard, r_data.rule_tokens_kept, r_sec.rule_line_model, r_data.rule_engine_args_agree, r_sec.rule_steer, r_data.rule_splitter_guard, r_data.rule_single_pass, r_lp.rule_pu_table_alias],
      "Engine-agreement clauses: both engines get the same line window - one interval convention for every section end and "
      "the matching affine skip_header = first+1 / max_rows = last-first after seek(0) in the fast engine (SEC.CONVENTION, "
      "SEC.SCAN); the reference engine and the sniffer count every physical line once, test for the section end on every "
@@ -628,6 +628,22 @@ ALSO9 = {
     "C20": "Round 9: release callables (`release = stream.close` / a no-op, called in finally) are lowered to the flag form before IO.TYPESTATE runs.",
 }
 ALSO10 = {
+    "C01": "Round 10: WR.FRAME also counts for this property - a WRAP item that write() installs on the LASFile must be the file's own "
+           "fresh object: an item shared between objects lets an in-place edit elsewhere make the written WRAP line disagree with "
+           "the layout of the data rows under it.",
+    "C02": "Round 10: PU.TABLE-ALIAS also counts for this property - the two engines receive NULL/READ substitutions built from the "
+           "tables of lasio/defaults.py and only the reference engine applies all of them, so a table entry extended in place by "
+           "one read makes the engines disagree in the next.",
+    "C05": "Round 10: DATA.WRAP-COUNT also counts for this property - the column count that shapes the data rows is the number of "
+           "curves after every header section has been parsed, so the rows are attributed to the same curves for any order of "
+           "the sections (~A before ~Curve included).",
+    "C06": "Round 10: SI.ACCESSORS also counts for this property - the NULL value is fetched by mnemonic lookup on ~Well "
+           "(reader and writer), which must return the item currently stored (no lookup memo that a replacement does not invalidate).",
+    "C09": "Round 10: DATA.FAST-TOKENS also counts for this property - the fast engine tokenises by runs of whitespace like the "
+           "splitter (no delimiter option), so doubling a tab is presentation only for both engines.",
+    "C20": "Round 10: `<object>.open(...)` (pathlib.Path.open, also on a call result such as ref.absolute().open(mode)) is an "
+           "acquisition; a lasio helper that may return such a handle makes each of its call sites an acquisition site (may-summary, "
+           "not specialised by the constant arguments of the call).",
     "C08": "Round 10: PU.TABLE-ALIAS also counts for this property - num() applies the comma-decimal substitution it looks up in "
            "defaults.READ_SUBS, so a read-reachable function that extends an entry of that table in place (through an alias) changes "
            "which header values become numbers in every later read.",
